@@ -217,12 +217,18 @@ func verifH_C09_gorilla() { verifC09(3) }
 //verif:harness id=C09 tier=thorough witness=end bounds="as quick with request paths of up to 4 bytes"
 func verifH_C09_gorilla5() { verifC09(5) }
 
-//verif:harness id=C09 tier=quick,thorough witness=end bounds="gorilla/mux-based router, path-level servers: document server /v1 (or none); paths /a, /m, /z where exactly one of them (explorer's choice) declares its own server /own; requests base in {none,/v1,/own} x path in {/a,/m,/z}: a path is routed exactly under its own servers if it declares some, else under the document's"
+//verif:harness id=C09 tier=quick,thorough witness=end bounds="gorilla/mux-based router, path-level servers: document server in {none, /v1, /, /v1/}; paths /a, /m, /z where exactly one of them (explorer's choice) declares its own server /own; requests base in {none,/v1,/own} x path in {/a,/m,/z}: a path is routed exactly under its own servers if it declares some, else under the document's"
 func verifH_C09_gorilla_path_servers() {
 	doc, ops := verifDoc([]string{"/a", "/m", "/z"}, 0)
 	docBase := ""
-	if verifChoose("docServer", 2) == 1 {
+	switch verifChoose("docServer", 4) {
+	case 1:
 		doc.Servers = openapi3.Servers{{URL: "/v1"}}
+		docBase = "/v1"
+	case 2:
+		doc.Servers = openapi3.Servers{{URL: "/"}} // the root: same as no base path
+	case 3:
+		doc.Servers = openapi3.Servers{{URL: "/v1/"}} // a trailing slash is not part of the base
 		docBase = "/v1"
 	}
 	own := []string{"/a", "/m", "/z"}[verifChoose("own", 3)]
